@@ -851,6 +851,8 @@ class Gen:
         class drawn from same / None / wider / narrower / incompatible"""
         r = self.rng
         kd = kind if kind in V.POOLS else self.kind()
+        if kind == "tuple" and "tcell" in (self.k.get("kinds") or []):
+            kd = "tcell"
         t = r.random()
         pw = self.k.get("p_wider", 0.12)
         pi = self.k.get("p_incompat", 0.06)
